@@ -561,7 +561,7 @@ func (E *Engine) VerifyFunc(p *packages.Package, pc *PkgContracts, c *FuncContra
 		}
 		f.note("function literal verified with its captured variables as unconstrained inputs")
 	}
-	for name := range f.trackCall {
+	for _, name := range sortedKeys(f.trackCall) {
 		env.names["calls:"+name] = Val{T: "0", Typ: types.Typ[types.Int]}
 	}
 	for _, gv := range c.GhostVars {
